@@ -4,6 +4,7 @@ import (
 	"fmt"
 	"go/token"
 	"go/types"
+	"os"
 	"sort"
 	"strings"
 
@@ -37,6 +38,8 @@ func runC01(c *Ctx) {
 	ruleResponseOneBeacon(c, "R1.5")
 	ruleRequestedRound(c, "R1.6")
 	ruleHTTPWaiter(c, "R1.7")
+	ruleWaiterPayload(c, "R1.9")
+	ruleBoltMemoryCopied(c, "R1.10", 12)
 	ruleMemDB(c, "R1.8")       // a beacon served for round r is the stored beacon of round r: the in-memory back-end looks rounds up by equality
 	ruleRoundLabels(c, "R1.8") // and the bolt back-ends label a value with the round of the key it was read under
 }
@@ -1027,4 +1030,66 @@ func derivesFromCall(v ssa.Value, suffix string, d int) bool {
 		return len(x.Edges) > 0
 	}
 	return false
+}
+
+// R1.9 what the HTTP watch loop hands to the requests parked for the next round is the encoding of the beacon the
+// watch stream just delivered, or nothing: it is not a beacon fetched for some other round.
+func ruleWaiterPayload(c *Ctx, rule string) {
+	c.ranRules[rule] = true
+	n := 0
+	for _, fn := range c.P.SubjectFns() {
+		if isControlFn(fn) || !strings.HasPrefix(fnPkgPath(fn), modPath+"/handler/http") {
+			continue
+		}
+		forEachInstr(fn, func(_ *ssa.BasicBlock, _ int, in ssa.Instruction) {
+			snd, ok := in.(*ssa.Send)
+			if !ok || !hasOrigin(Origins(snd.Chan), func(o Origin) bool { return o.Kind == "field" && strings.HasSuffix(o.Name, ".pending") }) {
+				return
+			}
+			n++
+			bad := ""
+			var walk func(v ssa.Value, marshalled bool, d int)
+			walk = func(v ssa.Value, marshalled bool, d int) {
+				if d > 6 || bad != "" {
+					return
+				}
+				for _, o := range Origins(v) {
+					switch o.Kind {
+					case "const", "alloc":
+					case "recv":
+						if !marshalled {
+							bad = "a value received from a channel is sent unencoded"
+						}
+					case "call":
+						call, _ := o.Val.(*ssa.Call)
+						if call == nil {
+							ex, _ := o.Val.(*ssa.Extract)
+							if ex != nil {
+								call, _ = ex.Tuple.(*ssa.Call)
+							}
+						}
+						if call != nil && strings.HasSuffix(calleeName(call), "json.Marshal") && !marshalled {
+							walk(callArgs(call)[0], true, d+1)
+							continue
+						}
+						if call != nil {
+							if b, ok := call.Common().Value.(*ssa.Builtin); ok && b.Name() == "make" {
+								continue
+							}
+						}
+						bad = "the payload comes from " + o.String()
+					default:
+						bad = "the payload comes from " + o.String()
+					}
+				}
+			}
+			walk(snd.X, false, 0)
+			if os.Getenv("VERIF_DEBUG_R19") != "" {
+				fmt.Fprintln(os.Stderr, "R1.9", fnShort(fn), Origins(snd.X))
+			}
+			c.Ok(rule, fnShort(fn)+" answers parked requests with the streamed beacon or nothing", shortPos(c.P, in), bad == "",
+				"every definition of the bytes sent to a parked request is json.Marshal of the value received from the watch stream, or an empty slice"+ifs(bad != "", "; "+bad, ""))
+		})
+	}
+	c.Floor(rule, "sends to parked requests", n, 1)
 }
